@@ -35,8 +35,13 @@ def main():
       out['suite_passes'] = ok
       out['suite_last'] = last
     demo = os.path.join(d, 'demo.py')
-    r1 = subprocess.run(['/venv/bin/python', demo], env=dict(os.environ, PYTHONPATH=scratch), capture_output=True, text=True, timeout=600, cwd=tempfile.gettempdir())
-    r0 = subprocess.run(['/venv/bin/python', demo], env=dict(os.environ, PYTHONPATH='/repo'), capture_output=True, text=True, timeout=600, cwd=tempfile.gettempdir())
+    # (the demonstrations were written by sub-agents; some leave temporary files behind: they get a directory of their own, removed afterwards)
+    demo_tmp = tempfile.mkdtemp(prefix='vf-demo-')
+    try:
+      r1 = subprocess.run(['/venv/bin/python', demo], env=dict(os.environ, PYTHONPATH=scratch, TMPDIR=demo_tmp), capture_output=True, text=True, timeout=600, cwd=demo_tmp)
+      r0 = subprocess.run(['/venv/bin/python', demo], env=dict(os.environ, PYTHONPATH='/repo', TMPDIR=demo_tmp), capture_output=True, text=True, timeout=600, cwd=demo_tmp)
+    finally:
+      shutil.rmtree(demo_tmp, ignore_errors=True)
     out['demo_with_change'] = r1.returncode
     out['demo_unchanged'] = r0.returncode
     out['checks'] = {}
